@@ -13,7 +13,7 @@ def turbofish(it: Item, name=None) -> str:
     return (name or it.ident) + ("::<%s>" % ", ".join(args) if args else "")
 
 
-STRING_TYPES = ("String", "&'static str", "Box<str>", "Wrap", "&'l0 str")
+STRING_TYPES = ("String", "&'static str", "Box<str>", "Wrap", "&'l0 str", "Id<G0>")
 
 
 def is_string_ty(ty: str) -> bool:
@@ -28,6 +28,7 @@ SAMPLE = {
     "String": ('String::from("pay load")', "pay load"), "&'static str": ('"st\\u{e9}"', "sté"),
     "&'l0 str": ('"lt"', "lt"),
     "Box<str>": ('Box::<str>::from("boxed")', "boxed"), "Wrap": ('Wrap(String::from("wr"))', "wr"),
+    "Id<G0>": ('Id(String::from("id7"), std::marker::PhantomData)', "id7"),
     "f32": ("1.5f32", "1.5"),
     "Tick": ("Tick(5)", None), "Boom": ("Boom", None), "std::marker::PhantomData<G0>": ("std::marker::PhantomData", None),      # hp.rs: Default counts constructions; an inherent `default()` returns another value
     # types that are NOT Send / Sync, and a few structured ones (none of them is Display)
